@@ -151,6 +151,13 @@ func oracle(sc *Scenario, tr *trace) (*Violation, bool, bool, []int) {
 				// truncated away completely: the partition, what it held and what its time index said are gone
 				registered[st.Part], acked[st.Part], flushed[st.Part] = false, nil, nil
 				dropped[st.Part], tainted[st.Part] = true, false
+			case "burst":
+				for _, n := range st.Create {
+					pipes[n] = true
+				}
+				for _, n := range st.Delete {
+					delete(pipes, n)
+				}
 			case "fwdpipe":
 				pipes[sc.fwdName()] = true
 			case "round":
